@@ -30,4 +30,6 @@ def run(rep, tier, seed):
     run_contracts(rep, "contracts.roundtrip_native", tier, seed, accept_props=["C01"])      # incl. whole files: data on the wire holds no raw & or <
     from props.tables import run_tables
     run_tables(rep, rep.prop)        # a token written is a token of the table: the tables themselves are well-formed
+    from props.tables import run_warn_only_strings
+    run_warn_only_strings(rep, rep.prop)      # a bounded string is declared strict, the reviewed warn-only declarations excepted
     replay_known_findings(rep)
